@@ -102,8 +102,146 @@ let steps_of f field =
   if field = "-" then [] else
   List.map (fun st -> let (nm, kind) = cut ':' st in (bytes_of_hex nm, f kind)) (String.split_on_char ',' field)
 
+
+(* ---- ammo-file cases (harness/cmd/hC10/ammo.go): from the bytes of the file to the samples ---- *)
+
+let str_of (b : n list) : string = String.concat "" (List.map (fun x -> String.make 1 (Char.chr (int_of_n x land 255))) b)
+let bytes_of_str (s : string) : n list = List.init (String.length s) (fun i -> n_of_int (Char.code s.[i]))
+
+(* net/url.Parse + http.NewRequest restricted to the URIs the generator writes ("/path[?query]",
+   for http/json "http://host/path[?query]"): accepted, String() = the text, Host = the authority.
+   Assumed, not modelled (C07 asks the real parser; here the URIs are kept simple instead). *)
+let no_scheme s = if starts "http://" s then Some (after_prefix "http://" s) else None
+let simple_url (u : n list) : (n list * n list) option =
+  let s = str_of u in
+  match no_scheme s with
+  | Some r -> Some (u, bytes_of_str (fst (cut '/' r)))
+  | None -> Some (u, [])
+(* req.URL.Path *)
+let path_of_url (s : string) : string =
+  let s = (match no_scheme s with
+           | Some r -> (match String.index_opt r '/' with Some i -> String.sub r i (String.length r - i) | None -> "")
+           | None -> s) in
+  fst (cut '?' s)
+
+let status_of_value (v : string) : n = if starts "ok:" v then n_of_string (after_prefix "ok:" v) else n_of_int 200
+let status_of_headers (h : (n list * n list) list) : n =
+  match List.filter (fun (k, _) -> str_of k = "X-Verif") h with
+  | (_, v) :: _ -> status_of_value (str_of v)
+  | [] -> n_of_int 200
+(* raw ammo: request line "METHOD target HTTP/1.1", header line "X-Verif: ok:<status>" *)
+let raw_lines (b : n list) = String.split_on_char '\n' (str_of b)
+let raw_path (b : n list) : string =
+  match raw_lines b with
+  | l :: _ -> (match String.split_on_char ' ' l with _ :: t :: _ -> path_of_url t | _ -> "")
+  | [] -> ""
+let raw_status (b : n list) : n =
+  let p = "X-Verif: " in
+  match List.filter (starts p) (raw_lines b) with
+  | l :: _ -> status_of_value (String.trim (after_prefix p l))
+  | [] -> n_of_int 200
+
+let colon s = String.split_on_char ':' s
+let hx = bytes_of_hex
+type tok =
+  | TH of n list * n list * (n list * n list * bool) * (n list * n list * n list * n list)
+  | TR of n list * n list * (n list * n list * bool) * n list
+  | TB of (n list * n list * bool)
+let parse_tok (t : string) : tok =
+  match colon t with
+  | ["H"; k; v; l; tr; cr; kl; kt; vl; vt] -> TH (hx k, hx v, (hx l, hx tr, cr = "1"), (hx kl, hx kt, hx vl, hx vt))
+  | ["R"; a; b; l; tr; cr; body] -> TR (hx a, hx b, (hx l, hx tr, cr = "1"), hx body)
+  | ["B"; _; _; l; tr; cr] -> TB (hx l, hx tr, cr = "1")
+  | _ -> failwith ("bad token " ^ t)
+let lay_of (l, t, cr) = { l_lead = l; l_trail = t; l_cr = cr }
+let parse_entity (t : string) : entity =
+  match colon t with
+  | ["E"; host; m; uri; tag; body; hs] ->
+      let hl = if hs = "-" then [] else
+        List.map (fun kv -> match String.split_on_char '=' kv with
+                            | [k; v] -> (hx k, hx v) | _ -> failwith "bad header") (String.split_on_char ';' hs) in
+      { j_host = hx host; j_method = hx m; j_uri = hx uri; j_headers = hl; j_tag = hx tag; j_body = hx body }
+  | _ -> failwith ("bad entity " ^ t)
+
+let rec delivered = function SDeliver _ :: r -> 1 + delivered r | _ -> 0
+let field_of (p : string) (obs : string) : string =
+  List.fold_left (fun acc w -> if starts p w then after_prefix p w else acc) "" (split_blank obs)
+
+let predict_ammo fmt en depth nto k fin file toks obs =
+  let cfg = { at_enabled = bool_of_field en; at_depth = nat_of_int (int_of_string depth); at_notagonly = bool_of_field nto } in
+  let ki = int_of_string k in
+  let kn = nat_of_int ki in
+  let fileb = bytes_of_hex file and fin = bool_of_field fin in
+  let one = n_of_int 1 in
+  let e_path (e : entry) = bytes_of_str (path_of_url (str_of e.e_url)) in
+  let e_x _ (e : entry) = XResp (status_of_headers e.e_headers, BodyOk) in
+  let e_tag (e : entry) = e.e_tag in
+  let entries decode ents = (* code-shaped side, specification side *)
+    let ds = decode () in
+    (shoot_deliveries cfg e_tag e_path e_x O one ds, delivered ds,
+     ammo_spec cfg e_tag e_path e_x O one (cycle_take kn ents ents)) in
+  let res =
+    match fmt with
+    | "uri" ->
+        let items = List.map (function
+          | TH (k, v, l, (kl, kt, vl, vt)) -> (UHeader (kl, k, kt, vl, v, vt), lay_of l)
+          | TR (u, t, l, _) -> (UReq (u, t), lay_of l)
+          | TB l -> (UBlank, lay_of l)) (List.map parse_tok toks) in
+        if render_uri items fin <> fileb then None
+        else let (a, d, b) = entries (fun () -> uri_decode simple_url max_token cfg0 kn fileb) (uri_entries (List.map fst items) []) in
+          Some (a, d, b, List.for_all (wf_uitem simple_url max_token) items)
+    | "uripost" ->
+        let items = List.map (function
+          | TH (k, v, l, (kl, kt, vl, vt)) -> (PHeader (kl, k, kt, vl, v, vt), lay_of l)
+          | TR (u, t, l, b) -> (PReq (u, t, b), lay_of l)
+          | TB l -> (PBlank, lay_of l)) (List.map parse_tok toks) in
+        if render_uripost items fin <> fileb then None
+        else let (a, d, b) = entries (fun () -> uripost_decode simple_url cfg0 kn fileb) (uripost_entries (List.map fst items) []) in
+          Some (a, d, b, List.for_all (wf_pitem simple_url) items)
+    | "raw" ->
+        let items = List.map (function
+          | TR (_, t, l, b) -> (RReq (t, b), lay_of l)
+          | TB l -> (RBlank, lay_of l)
+          | TH _ -> failwith "header line in raw case") (List.map parse_tok toks) in
+        if render_raw items fin <> fileb then None
+        else begin
+          let r_tag (e : rentry) = e.rb_tag and r_path (e : rentry) = bytes_of_str (raw_path e.rb_buf)
+          and r_x _ (e : rentry) = XResp (raw_status e.rb_buf, BodyOk) in
+          let ds = raw_decode cfg0 kn fileb in
+          let ents = raw_entries (List.map fst items) in
+          Some (shoot_deliveries cfg r_tag r_path r_x O one ds, delivered ds,
+                ammo_spec cfg r_tag r_path r_x O one (cycle_take kn ents ents), List.for_all wf_ritem items)
+        end
+    | "json" ->
+        (* the JSON text is an oracle (encoding/json): the model starts from the entities of the case *)
+        let ents = List.map parse_entity toks in
+        (match read_array simple_url ents with
+         | None -> None
+         | Some es ->
+             let (a, d, b) = entries (fun () -> json_stream_decode simple_url cfg0 kn ents JEof) es in
+             Some (a, d, b, true))
+    | _ -> None in
+  match res with
+  | None -> ("render-mismatch", "BAD:render-mismatch", false)
+  | Some (model, ndel, spec, wf) ->
+      let ids_of (l : sample list) = if l = [] then "-" else String.concat "," (List.map (fun (s : sample) -> string_of_n s.sm_id) l) in
+      let line l ids fin = Printf.sprintf "%s ids=%s end=%s" (s_samples l) ids fin in
+      let pred = line model (ids_of model) (if ndel >= ki then "more" else "stopped") in
+      (* specification: one sample per ammo of the file (cyclically), each with the tag chosen from
+         the tag written on ITS line, the status its exchange received; ids pairwise distinct *)
+      let obs_ids = field_of "ids=" obs in
+      let idl = if obs_ids = "-" then [] else String.split_on_char ',' obs_ids in
+      let ids_ok = List.length idl = ki && List.length (List.sort_uniq compare idl) = ki in
+      let want = line spec obs_ids "more" in
+      let v = if obs <> want then "BAD:expected " ^ line spec (ids_of spec) "more"
+              else if not ids_ok then "BAD:ids of the samples are not pairwise distinct"
+              else "ok" in
+      (pred, v, wf && List.length spec >= 3)
+
 let predict (c : string) (obs : string) : string * string * bool =
   match split_blank c with
+  | "ammo" :: fmt :: en :: depth :: nto :: k :: fin :: file :: toks ->
+      predict_ammo fmt en depth nto k fin file toks obs
   | ["http"; gun; fault; status; en; depth; nto; tag; path]
   | ["http"; gun; fault; status; en; depth; nto; tag; path; _] ->
       (* the optional last field switches tracing / dumps / answer log on: no effect on samples *)
